@@ -186,7 +186,12 @@ ExtCaseCases ==
           Case("extcase", <<>>, kf[1], kf[2], <<[name |-> "x-both", vt |-> "any", cls |-> "str"], [name |-> "X-Both", vt |-> "any", cls |-> "num"]>>)}
           : kf \in {x \in KindFlavours : AdmitsExt(x[1], x[2])}}
 
-Export == (IF "odd" \in Families THEN OddCases \cup ExtCaseCases ELSE {}) \cup
+\* ---- member names that differ from a keyword only by letter case (the worker flips the case):
+\* the standard decoder reads them as the keyword; C07 excepts them from the fixed-point demand,
+\* they are checked for totality only
+CaseFoldCases == {[c EXCEPT !.fam = "casefold"] : c \in Singles}
+
+Export == (IF "odd" \in Families THEN OddCases \cup ExtCaseCases \cup CaseFoldCases ELSE {}) \cup
           (IF "valid" \in Families THEN ValidCases ELSE {}) \cup
           (IF "payload" \in Families THEN PayloadCases ELSE {}) \cup
           (IF "single" \in Families THEN Singles ELSE {})
